@@ -524,3 +524,18 @@ func (r *Respd) exec(args [][]byte, journal bool) []byte {
 	}
 	return reply
 }
+
+// List returns a copy of the list stored under key in database db (nil if absent).
+func (r *Respd) List(db int, key string) [][]byte {
+	r.mu.Lock()
+	defer r.mu.Unlock()
+	v := r.dbs[db][key]
+	if v == nil {
+		return nil
+	}
+	out := make([][]byte, len(v.list))
+	for i, b := range v.list {
+		out[i] = append([]byte{}, b...)
+	}
+	return out
+}
